@@ -94,6 +94,7 @@
                 assert(table@.len() == t0.len());
                 assert(forall|k: int| 0 <= k < (ii - 1) * n ==> #[trigger] table@[k] == t0[k]);
                 let z = table@.subrange((ii - 1) * n, ii * n);
+                assert(z =~= cur@);
                 lemma_mp_is_pow_mul(prev@, val.0@, z, ring, r, 2 * ii - 1, 2);
                 lemma_mp_tbl_step(t0, table@, n as int, ring, r, ii);
             } @*/
@@ -191,9 +192,11 @@
                     /*@ let ghost v1 = val.0@; @*/
                     sqr_in_place(ring, &mut val, &mut memory);
                     /*@ proof {
+                        let kk = (2 * k0) * pow2(__i1 as int - 1);
                         lemma_mp_sqr_exp(2 * k0, __i1 as int);
-                        assert((2 * k0) * pow2(__i1 as int - 1) >= 0);
-                        lemma_mp_is_pow_mul(v1, v1, val.0@, ring, r, (2 * k0) * pow2(__i1 as int - 1), (2 * k0) * pow2(__i1 as int - 1));
+                        assert(kk >= 0);
+                        assert(is_pow(v1, ring, r, kk));
+                        lemma_mp_is_pow_mul(v1, v1, val.0@, ring, r, kk, kk);
                     } @*/
                 }
                 bit -= (num_bits as usize) - 1;
@@ -242,8 +245,8 @@
         }
         /*@ proof {
             lemma_mp_modulus_ge2(ring);
-            lemma_scaled_lt(crate::val(val.0@), ring_M(ring), ring_p(ring));
             lemma_valn_bound(val.0@, val.0@.len() as int);
+            lemma_scaled_lt(crate::val(val.0@), ring_M(ring), ring_p(ring));
         } @*/
         val
     }
